@@ -98,7 +98,7 @@ class Run(object):
         self.add_results(explore_all(jobs, procs), batch_nodes, tlc_workers)
 
     def add_mc(self, defs, own, max_pause=0, max_cancel=0, max_steps=14, known=None, replay=True,
-               lang="yaql", timeout=900, bound_check=False, max_rerun=0):
+               lang="yaql", timeout=900, bound_check=False, max_rerun=0, intended=False):
         """TLC model-checks Spec B + Props on `defs`; the behaviours it generated (leaf schedules,
         and the counterexample if an invariant failed) are replayed into the real conductor and
         validated like explored trees; digest mismatches are divergences."""
@@ -108,17 +108,18 @@ class Run(object):
             out = None
             for k in range(0, len(defs), 40):
                 out = self.add_mc(defs[k:k + 40], own, max_pause, max_cancel, max_steps, known, replay, lang, timeout,
-                                  bound_check, max_rerun)
+                                  bound_check, max_rerun, intended)
             return out
         if known is None:
             known = sorted({k["signature"] for k in load_known_findings() if k.get("status", "open") == "open"})
         defs = [dict(d, name="m%d_%s" % (i, d["name"])) for i, d in enumerate(defs)]
         res = mc.run_mc(defs, self.tmp, own, max_pause, max_cancel, max_steps, known, emit=replay,
                         timeout=timeout, tag="mc%d" % len(self.extra.get("mc_runs", [])), bound_check=bound_check,
-                        max_rerun=max_rerun)
+                        max_rerun=max_rerun, intended=intended)
         info = {"defs": len(defs), "states": res["distinct"], "transitions": res["states"],
                 "wall_s": round(res["wall"], 1), "max_pause": max_pause, "max_cancel": max_cancel,
-                "max_steps": max_steps, "max_rerun": max_rerun, "spec_violation": res["violated"], "leaves": len(res["leaves"])}
+                "max_steps": max_steps, "max_rerun": max_rerun, "deviations": "Intended" if intended else "AsCode",
+                "spec_violation": res["violated"], "leaves": len(res["leaves"])}
         if bound_check:
             info["bound_hit"] = res["bound_hit"]
             if res["bound_hit"]:
@@ -129,6 +130,10 @@ class Run(object):
         self.mc_states += res["distinct"]
         self.mc_transitions += res["states"]
         leaves = list(res["leaves"])
+        if intended:
+            if res["violated"] or res["rc"] != 0:
+                self.machinery.append("intended-design model violates a clause (or TLC failed): rc=%s\n%s" % (res["rc"], res["out"][-2500:]))
+            return res
         if res["violated"]:
             cx = _counterexample(res["out"])
             if cx:
